@@ -122,6 +122,8 @@ func SRPComputeKey(ss *srp.ServerSession, A []byte) ([]byte, error) {
 	}
 	st.A = append([]byte{}, A...)
 	if zero {
+		// the library keeps A as a big integer: zero has no bytes
+		st.A = []byte{}
 		return nil, errors.New("A%N == 0")
 	}
 	st.S = srpPremaster(st, A, st.verifier)
